@@ -14,34 +14,25 @@ Definition the (r : result sval) : sval := match r with Accept s => s | Reject _
 Definition fields_of (s : sval) : list (string * sval) := match s with SObj _ f => f | SLeaf _ => [] end.
 
 (* ================================================================== (2) the lock *)
-(* Full statement (kept visible): whatever the override document — dicts, nested dicts, settings objects —
-   an accepted construction without developer mode leaves every developer leaf of the tree, at every
-   nesting level, at the tree's default. *)
-Definition C14_dev_lock_statement : Prop :=
+(* The full statement, proved since the lock follows the DECLARED classes (/repo c15ad84d; before that it was refuted
+   by a settings object of a subclass, finding C14-K1, see C14_subclass_object_is_refused below): whatever the override
+   document — dicts, nested dicts, settings objects of the declared class or of a subclass — an accepted construction
+   without developer mode leaves every developer leaf of the tree, at every nesting level, at the tree's default.
+   Any tree, any registry, any depth; by induction on the path through the tree. *)
+Theorem C14_dev_lock :
   forall reg n d c o vs ch kvs gov f,
-    In VDevMode vs ->
-    vtop reg (Node n d c o vs ch) kvs = Accept (SObj gov f) ->
-    get_leaf "developer_mode" f = Some (JBool false) ->
-    forall path l v, leaf_at ch path = Some l -> ldev l = true -> value_at (SObj gov f) path = Some v ->
-    jv_eqb v (ldefault l) = true.
-
-(* proved for every tree, every depth, every document without object input (dicts, the documented way);
-   by induction on the path through the tree *)
-Theorem C14_dev_lock_partial :
-  forall reg n d c o vs ch kvs gov f,
-    no_inst_kvs kvs = true ->
     In VDevMode vs ->
     vtop reg (Node n d c o vs ch) kvs = Accept (SObj gov f) ->
     get_leaf "developer_mode" f = Some (JBool false) ->
     forall path l v, leaf_at ch path = Some l -> ldev l = true -> value_at (SObj gov f) path = Some v ->
     jv_eqb v (ldefault l) = true.
 Proof. exact dev_lock_l. Qed.
-Print Assumptions C14_dev_lock_partial.
+Print Assumptions C14_dev_lock.
 
 (* the lock is exact: it answers "developer mode is not enabled" only if some developer leaf of the tree, at some
    depth, does not hold its default — so a document that changes open fields only (season and weekday maps,
-   uncertainty level, ...) is never refused by the lock.  By induction on the tree; wf_children = field names
-   unique, no optional nested object (checked on the regenerated trees below). *)
+   uncertainty level, ...) is never refused by the lock.  By induction on the tree, for documents without object
+   input; wf_children = field names unique, no optional nested object (checked on the regenerated trees below). *)
 Theorem C14_lock_exact : forall reg n d c o vs ch kvs,
   wf_children ch = true -> no_inst_kvs kvs = true ->
   vtop reg (Node n d c o vs ch) kvs = Reject RDeveloper ->
@@ -95,26 +86,23 @@ Proof.
   split; vm_compute; reflexivity.
 Qed.
 
-(* the faithful model of the unchanged code does NOT satisfy the full statement: a settings object of a subclass
-   is compared with the defaults of its own class (settings.py:196-204 iterates cls.model_fields of the object).
-   Witness replayed on the implementation by harness/c14.py (corpus/C14.json), known finding C14-K1. *)
-Theorem C14_dev_lock_refuted :
-  exists kvs f path l v,
-    vtop reg t_DailySettings kvs = Accept (SObj children_DailySettings f) /\
-    get_leaf "developer_mode" f = Some (JBool false) /\
-    leaf_at children_DailySettings path = Some l /\ ldev l = true /\
-    value_at (SObj children_DailySettings f) path = Some v /\ jv_eqb v (ldefault l) = false.
+(* regression witness of the former finding C14-K1 (fixed in /repo c15ad84d): a settings object of the legacy subclass
+   in the split_selection field of the daily tree changes six developer-only constants; it is refused by the lock now —
+   also when it is an object of the declared class with one developer leaf changed — and accepted in developer mode.
+   Replayed on the implementation on every run (corpus/C14.json: must be REJECTED by the code). *)
+Example C14_subclass_object_is_refused :
+  vtop reg t_DailySettings [("split_selection", JInst "Split_Selection_Legacy_Definition" [])] = Reject RDeveloper /\
+  vtop reg t_DailySettings [("split_selection", JInst "Split_Selection_Definition" [("criteria", JStr "aic")])] = Reject RDeveloper /\
+  (exists s, vtop reg t_DailySettings [("split_selection", JInst "Split_Selection_Definition" [])] = Accept s) /\
+  (exists s, vtop reg t_DailySettings [("developer_mode", JBool true);
+                                       ("split_selection", JInst "Split_Selection_Legacy_Definition" [])] = Accept s /\
+             value_at s ["split_selection"; "allow_separate_summer"] = Some (JBool false)).
 Proof.
-  exists [("split_selection", JInst "Split_Selection_Legacy_Definition" [])].
-  exists (fields_of (the (vtop reg t_DailySettings [("split_selection", JInst "Split_Selection_Legacy_Definition" [])]))).
-  exists ["split_selection"; "allow_separate_summer"].
-  exists (match leaf_at children_DailySettings ["split_selection"; "allow_separate_summer"] with Some l => l | None =>
-            {| lname := ""; ldev := false; lty := {| base := BBool; optional := false |}; ldefault := JNull; lexcl := false; lreq := [] |} end).
-  exists (JBool false).
-  split; [vm_compute; reflexivity|]. split; [vm_compute; reflexivity|]. split; [vm_compute; reflexivity|].
-  split; [vm_compute; reflexivity|]. split; vm_compute; reflexivity.
+  split; [vm_compute; reflexivity|]. split; [vm_compute; reflexivity|]. split.
+  - exists (the (vtop reg t_DailySettings [("split_selection", JInst "Split_Selection_Definition" [])])). vm_compute. reflexivity.
+  - exists (the (vtop reg t_DailySettings [("developer_mode", JBool true); ("split_selection", JInst "Split_Selection_Legacy_Definition" [])])).
+    split; vm_compute; reflexivity.
 Qed.
-Print Assumptions C14_dev_lock_refuted.
 
 (* ================================================================== (3) normalisation *)
 Theorem C14_normalise_idempotent : forall kvs, normalise_kvs (normalise_kvs kvs) = normalise_kvs kvs.
